@@ -80,6 +80,25 @@ func sortLine(out *Out, caseID int, via, op, rk string, in []int) {
 	cr := guarded(20*opTimeout, func() {
 		work := append([]int{}, in...)
 		switch via {
+		case "sorter-then-others":
+			// the sorted array is still in use while other arrays of the same element type are sorted, and is sorted
+			// again itself: what it holds must not depend on those other calls
+			s := age.Sorter[int]().MakeWithRanker(ranker)
+			s.SortValues(work)
+			for _, m := range []int{len(work), len(work) - 1, len(work) + 3} {
+				if m < 0 {
+					continue
+				}
+				other := make([]int, m)
+				for i := range other {
+					other[i] = 900 - 7*i
+				}
+				age.Sorter[int]().MakeWithRanker(ranker).SortValues(other)
+			}
+			age.Sorter[int]().Make().SortValues(make([]int, 6))
+			s.ReverseValues(work)
+			s.SortValues(work)
+			res = work
 		case "sorter":
 			s := age.Sorter[int]().MakeWithRanker(ranker)
 			switch op {
@@ -253,6 +272,17 @@ func runC09(tier string, seed int64, out *Out) {
 		sortLine(out, caseID, via, "reverse", "nat", xs)
 		sortLine(out, caseID, via, "reverse2", "nat", xs)
 		sortLine(out, caseID, via, "shuffle", "nat", xs)
+	}
+	// a sorted array stays in use while others are sorted (lengths around every pass count)
+	for n := 0; n <= 40; n++ {
+		xs := make([]int, n)
+		for i := range xs {
+			xs[i] = (i*37 + 11) % 23
+		}
+		caseID++
+		for _, rk := range []string{"nat", "rev", "coarse"} {
+			sortLine(out, caseID, "sorter-then-others", "sort", rk, xs)
+		}
 	}
 	// large arrays (every tier): the sorter may treat them differently from small ones; rankers that are total orders,
 	// one of them keeping scratch state between the two reads of a call
